@@ -323,6 +323,19 @@ func (d *drv) api() map[string]interface{} {
 }
 
 func (d *drv) hook(site string, a, b int64) {
+	if d.sess != nil && d.sess.Silent {
+		// race-detector runs: the hooks must not order anything (no mutex of the driver is touched; the two counters
+		// are only shared by requests and hand-backs)
+		switch site {
+		case "pop":
+			atomic.AddInt64(&d.npop, 1)
+		case "push":
+			atomic.AddInt64(&d.npush, 1)
+		case "spin":
+			runtime.Gosched()
+		}
+		return
+	}
 	switch site {
 	case "pop":
 		d.mu.Lock()
@@ -407,14 +420,16 @@ func nzr(xs []RuleV) []RuleV {
 func (d *drv) doUpdate(u *Update) {
 	id := atomic.AddInt64(&d.updSeq, 1)
 	g := goid()
-	d.mu.Lock()
-	d.byGoU[g] = id
-	d.mu.Unlock()
-	defer func() {
+	if !d.sess.Silent { // (silent runs: a management goroutine shares no lock of the driver with the requests)
 		d.mu.Lock()
-		delete(d.byGoU, g)
+		d.byGoU[g] = id
 		d.mu.Unlock()
-	}()
+		defer func() {
+			d.mu.Lock()
+			delete(d.byGoU, g)
+			d.mu.Unlock()
+		}()
+	}
 	d.o.Emit(obs.Event{"ev": "upd_begin", "u": id, "kind": u.Kind, "rules": nzr(u.Rules), "names": nz(u.Names)})
 	var err error
 	var pv interface{}
